@@ -14,8 +14,8 @@ observation sets:
 * `C11_weighted_rounded_heights`   and heights within `2·2·(size−2)` rounding factors of each other when
   both lists are within rounding of the exact `wdist` (the C02 rounding theorems).
 
-Entry points are not restated (compose with `C03_*_weighted_rounded` / `C02_*_weighted_rounded` on both
-inputs exactly as `C11_linkage_average_rounded` does for average linkage).
+* `C11_linkage_weighted_rounded`   entry point: `linkage_with(Weighted)` on `data` and on the renumbered `data'`, under
+  the hypotheses of the C02/C03 rounding theorems for weighted linkage on both inputs (appended at the end).
 -/
 import Kodama.Props.C11Rounding
 import Kodama.Props.C06RoundingWeighted
@@ -252,5 +252,125 @@ theorem C11_weighted_rounded_heights {D : Nat → Nat → K} {u : K} {n : Nat} {
   have r := this.2 i a (mapStep (σ π n) b) ha (by rw [List.getElem?_map, hb]; rfl)
   rw [mapStep_d] at r
   exact r.2.2.2
+
+end Kodama
+
+namespace Kodama
+open Spec Crit MTree Finset Round
+
+variable {K : Type} [Field K] [LinearOrder K] [IsStrictOrderedRing K]
+variable {α : Type} [Num α]
+
+/-! ## Entry point: `linkage_with(Weighted)` on the original and on the renumbered matrix -/
+
+/-- `wdistLeaf` only reads `D` on the leaf and the tree's leaves. -/
+theorem wdistLeaf_congr_on {D D' : Nat → Nat → K} (i : Nat) (t : MTree Nat)
+    (h : ∀ y ∈ t.leaves, D i y = D' i y) : wdistLeaf D i t = wdistLeaf D' i t := by
+  induction t with
+  | leaf j => simp only [wdistLeaf]; exact h j (by simp)
+  | node l r ihl ihr =>
+    simp only [wdistLeaf]
+    rw [ihl (fun y hy => h y (by simp [hy])), ihr (fun y hy => h y (by simp [hy]))]
+
+/-- `wdist` only reads `D` on the leaves of the two trees. -/
+theorem wdist_congr_on {D D' : Nat → Nat → K} (s t : MTree Nat)
+    (h : ∀ x ∈ s.leaves, ∀ y ∈ t.leaves, D x y = D' x y) : wdist D s t = wdist D' s t := by
+  induction s with
+  | leaf i => simp only [wdist]; exact wdistLeaf_congr_on i t (fun y hy => h i (by simp) y hy)
+  | node l r ihl ihr =>
+    simp only [wdist]
+    rw [ihl (fun x hx => h x (by simp [hx])), ihr (fun x hx => h x (by simp [hx]))]
+
+/-- Leaves of the merge tree of a label below `n + length` are observations. -/
+theorem clusterTree_leaves_lt {n : Nat} {steps : List (Step α)} (ho : LabelsOrdered n steps) (l : Nat)
+    (hl : l < n + steps.length) : ∀ x ∈ (clusterTree n steps l).leaves, x < n := by
+  intro x hx
+  rw [clusterTree_leaves n steps ho steps.length l
+    (by by_cases c : l < n; exact Or.inl c; exact Or.inr ⟨hl, by omega⟩)] at hx
+  exact leaves_lt n steps steps.length l x (List.mem_toFinset.mp hx)
+
+/-- `WgtGreedyUpTo` only reads `D` on observations. -/
+theorem wgtGreedyUpTo_congr {D D' : Nat → Nat → K} {u : K} {n : Nat} {steps : List (Step α)}
+    (wf : WellFormed n steps) (h : ∀ i j, i < n → j < n → D i j = D' i j)
+    (g : WgtGreedyUpTo D u n steps) : WgtGreedyUpTo D' u n steps := by
+  have ho := labelsOrdered_of_wf wf
+  intro i s hi p q hp hq hpq
+  have hg := g i s hi p q hp hq hpq
+  have hil : i < steps.length := (List.getElem?_eq_some_iff.mp hi).1
+  have o := wf.ordered i s hi
+  have e : ∀ l l', l < n + i → l' < n + i →
+      wdist D (clusterTree n steps l) (clusterTree n steps l') =
+      wdist D' (clusterTree n steps l) (clusterTree n steps l') :=
+    fun l l' hl hl' => wdist_congr_on _ _ (fun x hx y hy =>
+      h x y (clusterTree_leaves_lt ho l (by omega) x hx) (clusterTree_leaves_lt ho l' (by omega) y hy))
+  simp only at hg ⊢
+  rw [← e s.c1 s.c2 (by omega) o.2, ← e p q hp.1 hq.1]
+  exact hg
+
+/-- `WgtHeightsNear` only reads `D` on observations. -/
+theorem wgtHeightsNear_congr {D D' : Nat → Nat → K} {u : K} {n : Nat} {val : α → K}
+    {steps : List (Step α)} (wf : WellFormed n steps) (h : ∀ i j, i < n → j < n → D i j = D' i j)
+    (g : WgtHeightsNear D u n val steps) : WgtHeightsNear D' u n val steps := by
+  have ho := labelsOrdered_of_wf wf
+  intro i s hi
+  have hg := g i s hi
+  have hil : i < steps.length := (List.getElem?_eq_some_iff.mp hi).1
+  have o := wf.ordered i s hi
+  rw [wdist_congr_on (D := D) (D' := D') _ _ (fun x hx y hy =>
+    h x y (clusterTree_leaves_lt ho s.c1 (by omega) x hx)
+      (clusterTree_leaves_lt ho s.c2 (by omega) y hy))] at hg
+  exact hg
+
+/-- **C11 for IEEE-style arithmetic, weighted linkage, through `linkage_with`.** -/
+theorem C11_linkage_weighted_rounded (L : OrderLaws α) {val : α → K} {fin : α → Prop}
+    {u lo hi : K} {N : Nat} (RM : Round.Model val fin u lo hi N)
+    {ok : α → Prop} (hge : ChainGeOn ok .weighted)
+    (chk chk' : Bool) (st st' : State α) (d d' : Dendrogram α) (data data' : Array α) (n : Nat)
+    (h2 : 2 ≤ n) (hs : n < 2147483648) (hl : 2 * data.size = n * (n - 1))
+    (hl' : 2 * data'.size = n * (n - 1))
+    {π ρ : Nat → Nat} (hπ : IsPerm n π ρ)
+    (hperm : ∀ i j, i < n → j < n →
+      entry n data' Num.infinity i j = entry n data Num.infinity (π i) (π j))
+    {dlo dhi : K} (hdlo : 0 < dlo)
+    (hdata : ∀ (k : Nat) (h : k < data.size), fin data[k] ∧ dlo ≤ val data[k] ∧ val data[k] ≤ dhi)
+    (hdata' : ∀ (k : Nat) (h : k < data'.size), fin data'[k] ∧ dlo ≤ val data'[k] ∧ val data'[k] ≤ dhi)
+    (Rg : RangeOkW u lo hi n dlo dhi)
+    (hok : ∀ v, fin v → dlo * (1 - u) ^ (2 * n) ≤ val v → val v ≤ dhi / (1 - u) ^ (2 * n) → ok v) :
+    ∃ s₁ e M₁ s₂ e' M₂,
+      linkageWith chk .weighted st d data n = .ok (s₁, e, M₁) ∧
+      linkageWith chk' .weighted st' d' data' n = .ok (s₂, e', M₂) ∧
+      (WgtMarginAlong (valD val n data) u n e.steps.toList →
+        ∀ (i : Nat) (a b : Step α), e.steps.toList[i]? = some a → e'.steps.toList[i]? = some b →
+          (Spec.leaves n e.steps.toList e.steps.toList.length (n + i)).toFinset =
+            (Spec.leaves n e'.steps.toList e'.steps.toList.length (n + i)).toFinset.image π ∧
+          a.size = b.size ∧ Near u (2 * (2 * (a.size - 2))) (val a.d) (val b.d)) := by
+  obtain ⟨s₁, e, M₁, r₁, wf₁, _⟩ :=
+    C03_linkage_weighted_rounded L RM hge chk st d data n h2 hs hl hdlo hdata Rg hok
+  obtain ⟨s₁', e₁', M₁', r₁', c₁⟩ :=
+    C02_linkage_weighted_rounded L RM hge chk st d data n h2 hs hl hdlo hdata Rg hok
+  obtain ⟨s₂, e', M₂, r₂, wf₂, g₂⟩ :=
+    C03_linkage_weighted_rounded L RM hge chk' st' d' data' n h2 hs hl' hdlo hdata' Rg hok
+  obtain ⟨s₂', e₂', M₂', r₂', c₂⟩ :=
+    C02_linkage_weighted_rounded L RM hge chk' st' d' data' n h2 hs hl' hdlo hdata' Rg hok
+  rw [r₁] at r₁'; cases r₁'
+  rw [r₂] at r₂'; cases r₂'
+  refine ⟨s₁, e, M₁, s₂, e', M₂, r₁, r₂, fun m₁ i a b ha hb => ?_⟩
+  have hsym : ∀ i j, valD val n data i j = valD val n data j i := by
+    intro i j; unfold valD; rw [init_D_symm]
+  have hD : ∀ i j, i < n → j < n →
+      valD val n data' i j = (fun i j => valD val n data (π i) (π j)) i j := by
+    intro i j hi hj
+    show val (let x := Spec.entry n data' Num.infinity i j;
+        if Method.average.onSquares then Num.mul x x else x) =
+      val (let x := Spec.entry n data Num.infinity (π i) (π j);
+        if Method.average.onSquares then Num.mul x x else x)
+    rw [hperm i j hi hj]
+  have g₂' := wgtGreedyUpTo_congr wf₂ hD g₂
+  have h₂' : WgtHeightsNear (fun i j => valD val n data (π i) (π j)) u n val e'.steps.toList :=
+    wgtHeightsNear_congr wf₂ hD (fun i s hi => (c₂ i s hi).2.2.2)
+  have fam := C11_weighted_rounded_family hπ hsym wf₁ wf₂ m₁ g₂' i a b ha hb
+  have hts := C11_weighted_rounded_heights RM.u_lt_one hπ hsym wf₁ wf₂ m₁ g₂'
+    (fun i s hi => (c₁ i s hi).2.2.2) h₂' i a b ha hb
+  exact ⟨fam.1, fam.2, hts⟩
 
 end Kodama
